@@ -87,7 +87,7 @@ func uniq(r *Rng) string {
 	return string(b)
 }
 
-var families = []string{"manyuniq", "refdef", "refuse", "footnote", "footuse", "heading", "typo", "table", "openend", "fence", "attr",
+var families = []string{"twins", "manyuniq", "refdef", "refuse", "footnote", "footuse", "heading", "typo", "table", "openend", "fence", "attr",
 	"deflist", "tasklist", "linkify", "strike", "cjk", "entity", "emph", "html", "list", "quote", "link", "para", "unilabel"}
 
 func genFamily(r *Rng, fam string) []byte {
@@ -112,6 +112,35 @@ func genFamily(r *Rng, fam string) []byte {
 		use = strings.ToUpper(label)
 	}
 	switch fam {
+	case "twins":
+		// Characters that collide when a code point is truncated (to 7, 8 or 16 bits) or looked
+		// up in a small direct-mapped table: a base character or one of its "twins" (base + 128,
+		// + 256, + 0x10000, + 0x20000), of a different class than the base where possible, placed
+		// where goldmark classifies characters: next to emphasis delimiters, in link labels and
+		// headings, around soft line breaks. A table indexed by a masked code point confuses the
+		// twin with the base once the base has been seen in the process.
+		bases := []rune{'.', ',', '!', '-', '1', 'a', 'Z', ' ', '、', '。', '「', '—', '·', '日', 'é', '㈱', '\u200b'}
+		c := pick(r, bases)
+		ch := c
+		if k := r.Intn(5); k > 0 {
+			ch = c + []rune{0, 128, 256, 0x10000, 0x20000}[k]
+		}
+		if ch >= 0xd800 && ch <= 0xdfff {
+			ch = c
+		}
+		x := string(ch)
+		switch r.Intn(5) {
+		case 0:
+			fmt.Fprintf(&b, "%s*%s%s* **%s**%s _%s_%s\n", word(r), x, word(r), word(r), x, x, word(r))
+		case 1:
+			fmt.Fprintf(&b, "漢*%s字* x**%s**y %s~~%s~~\n", x, x, x, word(r))
+		case 2:
+			fmt.Fprintf(&b, "[%sa]: /u\n\n[%sA] [%sa][]\n", x, x, x)
+		case 3:
+			fmt.Fprintf(&b, "# %s %s\n\n## %s%s\n", x, word(r), word(r), x)
+		default:
+			fmt.Fprintf(&b, "a%s\n%sb\n%s\n%s\n\"%s\" '%s'\n", x, x, x, x, x, x)
+		}
 	case "manyuniq": // 30-80 fresh tokens of one kind in one document
 		k := r.Range(30, 80)
 		toks := make([]string, k)
@@ -475,7 +504,7 @@ var longFollowers = []string{"- a\n  - b\n    - c\n", "- a\n- b\n\n- c\n", "1. a
 
 // leak pairs: a definer followed by a user of the same kind of per-document state. If
 // state survived a call the user's output changes.
-var leakPairs = [][2]string{{"refdef", "refuse"}, {"footnote", "footuse"}, {"footnote", "footnote"}, {"heading", "heading"},
+var leakPairs = [][2]string{{"twins", "twins"}, {"refdef", "refuse"}, {"footnote", "footuse"}, {"footnote", "footnote"}, {"heading", "heading"},
 	{"typo", "typo"}, {"table", "table"}, {"openend", "para"}, {"openend", "list"}, {"openend", "heading"}, {"openend", "fence"},
 	{"openend", "typo"}, {"openend", "refuse"}, {"openend", "table"}, {"fence", "fence"}, {"attr", "heading"}, {"deflist", "para"},
 	{"emph", "emph"}, {"list", "list"}, {"unilabel", "unilabel"}, {"unilabel", "refuse"}, {"html", "para"}, {"refdef", "link"}, {"entity", "entity"}, {"quote", "para"}}
@@ -774,7 +803,7 @@ func genComposite(r *Rng, k int) []byte {
 }
 
 // herd: k documents of the same construct family with different parameters.
-var herdFamilies = []string{"manyuniq", "footuse", "linkify", "strike", "tasklist", "cjk", "unilabel", "fence", "list", "link", "refdef", "emph", "table", "footnote", "heading", "typo", "openend", "entity", "quote", "deflist", "attr", "html"}
+var herdFamilies = []string{"twins", "manyuniq", "footuse", "linkify", "strike", "tasklist", "cjk", "unilabel", "fence", "list", "link", "refdef", "emph", "table", "footnote", "heading", "typo", "openend", "entity", "quote", "deflist", "attr", "html"}
 
 // biasConfig switches on what a construct family needs in order to mean anything (a herd of
 // footnote documents on an instance without the Footnote extension explores nothing), and
